@@ -915,8 +915,13 @@ def install(interp):
 
     def t_argsort(t, dim=-1, descending=False, stable=False):
         t = _t(t)
+        if len(t.shape) == 2:
+            d = t._norm_dim(dim)
+            rows = [t_argsort(t[i] if d == 1 else t[:, i], 0, descending) for i in range(t.shape[1 - d])]
+            m = stack(rows, 0)
+            return m if d == 1 else m.transpose(0, 1)
         if len(t.shape) != 1:
-            raise Unsupported('argsort of a non-vector')
+            raise Unsupported('argsort of a tensor of rank > 2')
         # data-dependent permutation: every comparison forks (python-level insertion sort, stable)
         idx = list(range(t.shape[0]))
         out = []
